@@ -115,7 +115,7 @@ def burst (n : Nat) : List Op := (List.range n).map (fun i => Op.ins (i % 16) i)
 queue to the flush point, one insert that runs the maintenance itself, a stretch inside the
 interval where every insert runs it; then the same again.  No `sync` call anywhere. -/
 def burstHistory : List Op :=
-  [.adv 600000000] ++ burst 100 ++ [.adv 600000000] ++ burst 100
+  [.adv Gen.PAST_SYNC_INTERVAL_NS] ++ burst 100 ++ [.adv Gen.PAST_SYNC_INTERVAL_NS] ++ burst 100
 
 /-- Every one of the 200 inserts returns `ok`. -/
 example : ((Sync.trace {} burstHistory).filter
@@ -127,17 +127,17 @@ inserts outside the interval the write queue is exactly at the flush point, and 
 one (which performs the maintenance) it holds that insert only. (Stated with the generated
 constants, so that a retuning of the flush points re-evaluates the example instead of
 breaking it.) -/
-example : (stateAfter {} {} ([.adv 600000000] ++ burst Gen.WRITE_LOG_FLUSH_POINT)).writeQ.length
+example : (stateAfter {} {} ([.adv Gen.PAST_SYNC_INTERVAL_NS] ++ burst Gen.WRITE_LOG_FLUSH_POINT)).writeQ.length
       = Gen.WRITE_LOG_FLUSH_POINT ∧
-    (stateAfter {} {} ([.adv 600000000] ++ burst (Gen.WRITE_LOG_FLUSH_POINT + 1))).writeQ.length = 1 ∧
+    (stateAfter {} {} ([.adv Gen.PAST_SYNC_INTERVAL_NS] ++ burst (Gen.WRITE_LOG_FLUSH_POINT + 1))).writeQ.length = 1 ∧
     (stateAfter {} {} burstHistory).writeQ.length ≤ Gen.WRITE_LOG_FLUSH_POINT ∧
     (stateAfter {} {} burstHistory).map.length = 16 := by
   decide +kernel
 
 /-- Reads: 200 `get`s outside the interval never overflow the read queue either. -/
-example : (stateAfter {} {} ([.adv 600000000] ++ (List.range 200).map Op.get)).readQ.length
+example : (stateAfter {} {} ([.adv Gen.PAST_SYNC_INTERVAL_NS] ++ (List.range 200).map Op.get)).readQ.length
       ≤ Gen.READ_LOG_FLUSH_POINT ∧
-    (stateAfter {} {} ([.adv 600000000] ++ (List.range Gen.READ_LOG_FLUSH_POINT).map Op.get)).readQ.length
+    (stateAfter {} {} ([.adv Gen.PAST_SYNC_INTERVAL_NS] ++ (List.range Gen.READ_LOG_FLUSH_POINT).map Op.get)).readQ.length
       = Gen.READ_LOG_FLUSH_POINT := by
   decide +kernel
 
